@@ -64,9 +64,11 @@ func lexemes(s string) []string {
 			}
 			out = append(out, s[i:j])
 			i = j
-		case isWordByte(c) || c == ':' && i+1 < len(s) && isWordByte(s[i+1]) && s[i+1] != '/':
+		case isWordByte(c) || c == ':' && i+1 < len(s) && isWordByte(s[i+1]) && s[i+1] != '/' || c == '.' && i+1 < len(s) && s[i+1] == '/':
 			j := i + 1
-			for j < len(s) && isWordByte(s[j]) {
+			q := false // inside the ?options part of a file name
+			for j < len(s) && (isWordByte(s[j]) || s[j] == '?' || q && (s[j] == '=' || s[j] == '&') || s[j] == '.' && strings.HasPrefix(s[i:], "@@")) {
+				q = q || s[j] == '?'
 				j++
 			}
 			out = append(out, s[i:j])
@@ -109,7 +111,11 @@ func mutate(t *rapid.T, base string, other string) string {
 	for m := 0; m < n && len(toks) > 0; m++ {
 		lbl := "m" + strconv.Itoa(m)
 		i := rapid.IntRange(0, len(toks)-1).Draw(t, lbl+"at")
-		switch rapid.IntRange(0, 7).Draw(t, lbl+"kind") {
+		switch rapid.IntRange(0, 13).Draw(t, lbl+"kind") {
+		case 8, 9, 10, 11, 12, 13: // replace by a lexeme of the same class (keeps most statements parseable)
+			if pool := classPool(toks[i]); pool != nil {
+				toks[i] = rapid.SampledFrom(pool).Draw(t, lbl+"same")
+			}
 		case 0: // delete
 			toks = append(toks[:i:i], toks[i+1:]...)
 		case 1: // duplicate
@@ -150,3 +156,72 @@ func mutate(t *rapid.T, base string, other string) string {
 	}
 	return sb.String()
 }
+
+var (
+	poolNumber  = []string{"0", "1", "2", "300", "1.5", ".5", "1e3", "9223372036854775807", "9223372036854775808", "0x1f", "007"}
+	poolString  = []string{"'x'", "''", "'it''s'", `'a\'b'`, `'a\\b'`, `'a"b'`, "'a\tb'", "'a\nb'", `'\t'`, "'%'", "'é'"}
+	poolIdent   = []string{"a", "b", "t", "x", "r", "`q q`", "`select`", "\"dq\"", "A", "_a1", "./f.json", "a/b.csv", "`end`", "time_field"}
+	poolCompare = []string{"=", "<", ">", "<=", ">=", "!=", "<>", "<=>", "~", "~*", "!~", "!~*", "like", "regexp", "not like", "in", "is"}
+	poolArith   = []string{"+", "-", "*", "/", "%", "&", "|", "^", "<<", ">>", "div", "mod", "and", "or"}
+	poolJoin    = []string{"join", "inner join", "cross join", "lookup join", "stream join", "left join", "right join", "outer join", "left outer join", "natural join", "straight_join", "lookup inner join", ","}
+	poolPostfix = []string{"->", "::", "."}
+)
+
+// classPool returns the replacement pool of a lexeme's class, nil if it has none.
+func classPool(tk string) []string {
+	l := strings.ToLower(tk)
+	switch {
+	case tk == "":
+		return nil
+	case tk[0] >= '0' && tk[0] <= '9' || tk[0] == '.' && len(tk) > 1 && tk[1] != '/':
+		return poolNumber
+	case tk[0] == '\'':
+		return poolString
+	case l == "join":
+		return poolJoin
+	case l == "and" || l == "or" || l == "div" || l == "mod":
+		return poolArith
+	case l == "like" || l == "regexp" || l == "rlike":
+		return poolCompare
+	case tk[0] == '`' || tk[0] == '"':
+		return poolIdent
+	case isWordByte(tk[0]) || tk[0] == '.':
+		if _, kw := keywordish[l]; kw {
+			return nil
+		}
+		return poolIdent
+	}
+	for _, o := range poolCompare {
+		if tk == o {
+			return poolCompare
+		}
+	}
+	for _, o := range poolArith {
+		if tk == o {
+			return poolArith
+		}
+	}
+	for _, o := range poolPostfix {
+		if tk == o {
+			return poolPostfix
+		}
+	}
+	return nil
+}
+
+var keywordish = func() map[string]bool {
+	m := map[string]bool{}
+	for _, k := range splicePool {
+		if k != "" && k[0] >= 'a' && k[0] <= 'z' && !strings.Contains(k, " ") && len(k) > 1 {
+			m[k] = true
+		}
+	}
+	for _, k := range []string{"insert", "update", "delete", "create", "alter", "drop", "show", "use", "begin", "commit", "rollback", "explain", "describe", "replace", "rename", "truncate", "analyze", "flush", "if", "view", "index", "database", "schema", "tables", "key", "primary", "unique", "for", "lock", "share", "mode", "duplicate", "ignore", "escape", "separator", "cast", "convert", "substr", "current_timestamp", "stream", "next", "value", "vschema", "vindex", "to", "add", "column", "partition", "names", "session", "global", "transaction", "start", "read", "only", "write", "isolation", "level", "committed", "full", "columns", "variables", "status", "collation", "charset", "engines", "plugins", "processlist", "warnings", "triggers", "like", "regexp", "rlike", "div", "mod", "binary", "collate", "int", "second"} {
+		m[k] = true
+	}
+	delete(m, "int")
+	delete(m, "second")
+	delete(m, "start")
+	delete(m, "end")
+	return m
+}()
